@@ -133,9 +133,10 @@ type History struct {
 	Batches  []int        `json:"batches,omitempty"` // sizes of the InsertChain batches on B (default: 1 each)
 	// the plain chain_makers path (no staking module): transfers and calls only
 	Plain bool `json:"plain,omitempty"`
-	// hand the fork to the side-chain import path without its blocks having been
-	// stored (without state) beforehand
-	SideRaw bool `json:"side_raw,omitempty"`
+	// second side-chain import on a node whose database is not prepared as node
+	// D's: "stored" (fork blocks stored without state, no transaction lookup) or
+	// "raw" (nothing stored)
+	SideE string `json:"side_e,omitempty"`
 	// number of blocks node D imports the ordinary way before the rest arrives as a fork
 	SideFrom int `json:"side_from,omitempty"`
 }
@@ -223,6 +224,8 @@ type BlockObs struct {
 	Incoherent     []string   `json:"-"` // object cache of the carried StateDB versus its own tries
 	SideErr        string     `json:"-"` // error of the real side-chain import path (node D), reported on the first block
 	SideSkipped    bool       `json:"-"`
+	SideEErr       string     `json:"-"`
+	SideEMode      string     `json:"-"`
 	SideLen        int        `json:"-"`
 	Submitted      int        `json:"-"`
 }
@@ -326,7 +329,7 @@ type World struct {
 	penalty  common.Address
 	uni      []common.Address
 	ids      map[common.Address]int64
-	A, B, C, D *Node
+	A, B, C, D, E *Node
 	be       *backend
 	worker   *miner.VerifWorkerC06
 	pr       *probe
@@ -560,7 +563,7 @@ func (w *World) newNode(name string, probes bool) *Node {
 	w.writeGenesis(n.db)
 	n.eng = &fakeEngine{Solo: solo.NewSolo()}
 	var eng consensus.Engine = n.eng
-	if name == "D" {
+	if name == "D" || name == "E" {
 		n.ucon = &uconEngine{fakeEngine: n.eng}
 		eng = n.ucon
 	}
@@ -585,7 +588,7 @@ func (w *World) newNode(name string, probes bool) *Node {
 }
 
 func (w *World) stop() {
-	for _, n := range []*Node{w.A, w.B, w.C, w.D} {
+	for _, n := range []*Node{w.A, w.B, w.C, w.D, w.E} {
 		if n != nil && n.bc != nil {
 			n.bc.Stop()
 		}
@@ -1155,7 +1158,7 @@ func runPlain(h *History, reps int) []*BlockObs {
 	})
 	w.headMoved(obs)
 	w.carried(obs)
-	w.sideChain(obs)
+	w.sideChains(obs)
 	return obs
 }
 
@@ -1272,25 +1275,37 @@ func (w *World) carrySegment(obs []*BlockObs, from, to int) {
 	}
 }
 
-// sideChain: node D imports a prefix of the built chain the ordinary way and
-// receives the rest through BlockChain.InsertChain with the first header
-// answered ErrExistCanonical: the real insertSidechain /
+// sideChain: a node still at genesis imports a prefix of the built chain the
+// ordinary way and receives the rest through BlockChain.InsertChain with the
+// first header answered ErrExistCanonical: the real insertSidechain /
 // verifyAllSideChainBlocks path (ONE StateDB carried across the fork), then the
 // re-import.  The split is moved forward until the look-back block of every
-// evidence confirmed inside the fork lies on D's canonical prefix (signer
-// resolution reads the local canonical chain; with the shipped StakeLookBack of
-// 128 a fork would have to be deeper than that to matter).
-func (w *World) sideChain(obs []*BlockObs) {
+// evidence confirmed inside the fork lies on the canonical prefix (signer
+// resolution reads the local canonical chain by number; with the shipped
+// StakeLookBack of 128 a fork would have to be deeper than that to matter).
+//
+// mode "indexed": the fork's blocks are stored (without state) and indexed in
+//                 the transaction lookup beforehand - node D, must succeed;
+// mode "stored":  stored without state only (what a node really has after it
+//                 saw the blocks once) - node E;
+// mode "raw":     nothing stored - node E.
+func (w *World) sideChain(obs []*BlockObs, node *Node, mode string) (res string, skipped bool, length int) {
 	n := 0
 	for n < len(w.blocks) && n < len(obs) && obs[n].Imported && len(obs[n].ReexecDiff) == 0 {
 		n++
 	}
 	if n == 0 {
-		return
+		return "", true, 0
 	}
 	k := w.h.SideFrom
 	if k < 0 || k >= n {
 		k = 0
+	}
+	// staking.EndBlock asks chain.VersionForRound(number), which reads the
+	// canonical header 8 rounds back (protocolRoundBack): a fork deeper than that
+	// cannot be verified by this path at all - keep the fork at 8 blocks or less
+	if n-k > 8 {
+		k = n - 8
 	}
 	lb := w.yp.StakeLookBack
 	for moved := true; moved; {
@@ -1307,52 +1322,64 @@ func (w *World) sideChain(obs []*BlockObs) {
 		}
 	}
 	if k >= n {
-		obs[0].SideSkipped = true
-		return
+		return "", true, 0
 	}
 	defer func() {
 		if r := recover(); r != nil {
-			obs[0].SideErr = fmt.Sprint("panic: ", r)
+			res = fmt.Sprint("panic: ", r)
 			for _, ln := range strings.Split(string(debug.Stack()), "\n") {
 				if i := strings.Index(ln, "go-youchain/staking."); i >= 0 && !strings.Contains(ln, "EndBlock") {
 					f := ln[i+len("go-youchain/staking."):]
 					if j := strings.Index(f, "("); j > 0 {
 						f = f[:j]
 					}
-					obs[0].SideErr += " @" + f
+					res += " @" + f
 					break
 				}
 			}
 			if os.Getenv("C06_DEBUG") != "" {
 				fmt.Fprintln(os.Stderr, string(debug.Stack()))
 			}
-			w.D.bc = nil // its wait group and chain mutex are stuck now: never Stop() it
+			node.bc = nil // its wait group and chain mutex are stuck now: never Stop() it
 		}
 	}()
 	if k > 0 {
-		if err := w.D.bc.InsertChain(types.Blocks(w.blocks[:k])); err != nil {
-			obs[0].SideErr = "prefix: " + err.Error()
-			return
+		if err := node.bc.InsertChain(types.Blocks(w.blocks[:k])); err != nil {
+			return "prefix: " + err.Error(), false, 0
 		}
 	}
-	obs[0].SideLen = n - k
-	if !w.h.SideRaw {
-		// the fork's blocks have been seen before: stored without state
+	if mode != "raw" {
 		for _, b := range w.blocks[k:n] {
-			if err := w.D.bc.WriteBlockWithoutState(b); err != nil {
-				obs[0].SideErr = err.Error()
-				return
+			if err := node.bc.WriteBlockWithoutState(b); err != nil {
+				return err.Error(), false, 0
 			}
-			if os.Getenv("C06_SIDE_TXLOOKUP") != "" {
-				rawdb.WriteTxLookupEntries(w.D.db, b)
+			if mode == "indexed" {
+				rawdb.WriteTxLookupEntries(node.db, b)
 			}
 		}
 	}
-	w.D.ucon.sideOnce = true
-	err := w.D.bc.InsertChain(types.Blocks(w.blocks[k:n]))
+	node.ucon.sideOnce = true
+	err := node.bc.InsertChain(types.Blocks(w.blocks[k:n]))
 	if err != nil {
-		obs[0].SideErr = err.Error()
-	} else if w.D.bc.CurrentBlock().Hash() != w.blocks[n-1].Hash() {
-		obs[0].SideErr = fmt.Sprintf("side-chain import ended at block %d instead of %d", w.D.bc.CurrentBlock().NumberU64(), w.blocks[n-1].NumberU64())
+		return err.Error(), false, n - k
 	}
+	if node.bc.CurrentBlock().Hash() != w.blocks[n-1].Hash() {
+		return fmt.Sprintf("side-chain import ended at block %d instead of %d", node.bc.CurrentBlock().NumberU64(), w.blocks[n-1].NumberU64()), false, n - k
+	}
+	return "", false, n - k
+}
+
+// sideChains runs the side-chain import on node D (indexed) and, when the
+// history asks for it, on node E (stored or raw).
+func (w *World) sideChains(obs []*BlockObs) {
+	if len(obs) == 0 {
+		return
+	}
+	obs[0].SideErr, obs[0].SideSkipped, obs[0].SideLen = w.sideChain(obs, w.D, "indexed")
+	if obs[0].SideSkipped || obs[0].SideErr != "" || w.h.SideE == "" {
+		return
+	}
+	w.E = w.newNode("E", false)
+	obs[0].SideEErr, _, _ = w.sideChain(obs, w.E, w.h.SideE)
+	obs[0].SideEMode = w.h.SideE
 }
